@@ -344,9 +344,10 @@ def impl_count(blt, opts, timeout=20, want_E=False):
         signal.alarm(0)
         signal.signal(signal.SIGALRM, old)
         record_mod.ElectionRecord.action = orig_action
+    res['tokens'] = model_tokens(E, p)     # a function of profile and options only: available even when the count hangs
+    res['arith'] = E.V.name
     if exc == 'timeout':
         res['status'] = 'timeout'; return res
-    res['tokens'] = model_tokens(E, p)
     V = E.V
     out = []
     si = 0
@@ -483,7 +484,7 @@ def _worker(args):
         r = impl_count(blt, opts, timeout=timeout, want_E=bool(oracle_names))
     except Exception as ex:
         return dict(idx=idx, status='harness-error', err=traceback.format_exc()[-800:], trace='', model=None, oracle=[])
-    out = dict(idx=idx, status=r['status'], trace=r['trace'], model=None, oracle=[], msg=r.get('msg'), exc_tb=r.get('exc_tb'))
+    out = dict(idx=idx, status=r['status'], trace=r['trace'], model=None, oracle=[], msg=r.get('msg'), exc_tb=r.get('exc_tb'), arith=r.get('arith'))
     if oracle_names and 'E' in r:
         import oracles
         for name in oracle_names:
